@@ -15,6 +15,7 @@ CONSTANTS
   SlowSet = {FALSE}
   CnSet = {"no"}
   QuitSet = {"bye"}
+  ResSet <- LocalRes
   Devs = {"PoolUnchecked"}
   Gen = FALSE
 VIEW View
